@@ -32,6 +32,28 @@ func runC14(c *Ctx) {
 			}
 		}
 	}
+	// and the plain functions of package wire they call (error constructors, decoding helpers): a slice expression
+	// in one of those runs on the row's values as well
+	seenP := map[*ssa.Function]bool{}
+	for _, fn := range pfns {
+		seenP[fn] = true
+	}
+	for i := 0; i < len(pfns) && i < 64; i++ {
+		if pfns[i] == nil {
+			continue
+		}
+		fns := append([]*ssa.Function{pfns[i]}, pfns[i].AnonFuncs...)
+		for _, f := range fns {
+			for _, ci := range core.Calls(f) {
+				h := core.StaticCallee(ci)
+				if h == nil || seenP[h] || !c.P.InPkg(h, "wire") || h.Blocks == nil || h.Signature.Recv() != nil {
+					continue
+				}
+				seenP[h] = true
+				pfns = append(pfns, h)
+			}
+		}
+	}
 	nOb, nOK := c.panicFreedom("C14.R1", pfns)
 	R.Count("bounds_obligations", nOb)
 	R.Count("bounds_discharged", nOK)
